@@ -222,7 +222,7 @@ def query_kind(case, q, W=None):
 # --------------------------------------------------------------------------------------
 
 def gen_cases(ctx, count, n_range, k_range, weakly_modes, want=("ok",), q_per=6, consts=0.05, depth=2,
-              outside_sig=0.1, max_tries=40, ties=0.0, deep=0.12, flat=0.06, conj=0.06):
+              outside_sig=0.1, max_tries=40, ties=0.0, deep=0.12, flat=0.06, conj=0.06, big=0.04):
     """generate cases whose base status (by brute force classification) is in `want`"""
     rng = ctx.rng
     cases = []
@@ -234,7 +234,22 @@ def gen_cases(ctx, count, n_range, k_range, weakly_modes, want=("ok",), q_per=6,
         weakly = rng.choice(weakly_modes)
         nq = n
         queries = []
-        if rng.random() < ties and n_range[1] >= 4:
+        if rng.random() < big and n_range[1] >= 5:
+            # larger inputs: 6-7 atoms, 8-12 conditionals (>= 10 keys, up to 6 layers)
+            n = nq = rng.randint(6, 7)
+            r = rng.random()
+            if r < 0.45:
+                conds, queries = core.gen_chain_case(rng, n)
+            elif r < 0.7:
+                conds, queries = core.gen_tie_case(rng, n)
+            else:
+                conds, queries = core.gen_base(rng, n, rng.randint(8, 10), depth=1, consts=0.0), []
+            target = rng.randint(8, 12)
+            while len(conds) < target:
+                conds.append(core.gen_cond(rng, n, 1, 0.0))
+            rng.shuffle(conds)
+            queries = queries[:q_per]
+        elif rng.random() < ties and n_range[1] >= 4:
             n = nq = rng.randint(max(4, n_range[0]), n_range[1])
             conds, queries = core.gen_tie_case(rng, n)
         elif rng.random() < conj and n_range[1] >= 3:
